@@ -27,6 +27,13 @@ LEVEL = {
             "s*u (parallel to the direction); the applied root has the smaller magnitude and both are roots; rejected hop is a no-op; event fields. "
             "Run-level event/active-state consistency is checked on the implementation for both trace stores (oracle), its loop theorem is in C16", "7 C04", NOTE,
             "Lean 4 theorems + correspondence with gaps at 1e-13..0.3 relative distance from the threshold"),
+    "C07": ("proof", "Lean theorems, exact, any dimension/state count/force field/number of steps: velocity Verlet is time-symmetric; reversing velocities "
+            "conjugates the midpoint generator; the code's step matrix equals exp(-i dt W) for ANY unitary eigendecomposition (independent of eigh's "
+            "choice); the electronic step with the reversed generator undoes the step on the conjugated state; nuclear+electronic step and whole "
+            "forward-then-reversed runs return to the start. PARTIAL: order two is not formalised (symmetric + consistent => even order is cited); "
+            "the factor four is a Richardson test on the implementation (two finest ratios of four levels). The model has both the true-midpoint and "
+            "the aliased generator; the correspondence of single real steps tells them apart", "7 C07", NOTE,
+            "Lean 4 theorems (ring identities, Matrix.exp conjugation/transposition, induction over steps) + single-step correspondence"),
     "C08": ("proof", "Lean theorems for any N, n: potential = Re tr(rho H); hopping is the identity for any number of steps; mean-field force "
             "= population term + coherence term; exact deviation of the code's force (coherence term missing), partial equality (diagonal rho or "
             "diagonal force matrix), 2-state witness; energy balance d/dt(KE+tr rho H) = v.(F_used - F_meanfield). The pinned _force violates the "
